@@ -465,6 +465,9 @@ fn retrace(sink: &mut Sink, o: &Opts) {
     }
     let wild = o.rest.iter().any(|a| a == "--wild");
     let cfg = gen::MapCfg { max_classes: 5, max_members: 7, wild, noise: true };
+    if !wild && o.n > 0 {
+        sessions.extend(gen::crafted());
+    }
     for k in 0..o.n {
         let m = if !wild && focus != "names" && k % 10 == 9 {
             gen::mapping_big_class(&mut rng)
@@ -689,6 +692,43 @@ fn cache(sink: &mut Sink, o: &Opts) {
     if focus == "written" {
         srcs.push(vec![]);
         srcs.push(b"a.B -> a:\n".to_vec());
+        srcs.extend(gen::crafted());
+    }
+    if focus == "same" {
+        // production-sized mapping (hundreds of thousands of distinct methods): too large to hand to TLC byte
+        // by byte, so the copies are compared by length and a 64-bit FNV-1a digest computed here
+        let per: usize = opt_value(o, "--big-methods").map(|s| s.parse().unwrap()).unwrap_or(200_000);
+        let classes = 2500usize;
+        let mut big = String::with_capacity(per * 70);
+        for c in 0..classes {
+            big.push_str(&format!("com.example.pkg{}.Class{} -> a.b{}:\n", c % 50, c, c));
+            for m in 0..per / classes {
+                big.push_str(&format!("    {}:{}:void method{}(int,p.Q{}):{}:{} -> m{}\n", 10 * m + 1, 10 * m + 5, m, c % 7, 100 + m, 104 + m, m % 40));
+            }
+        }
+        let big: std::sync::Arc<Vec<u8>> = std::sync::Arc::new(big.into_bytes());
+        let fnv = |b: &[u8]| -> u64 { b.iter().fold(0xcbf29ce484222325u64, |h, x| (h ^ *x as u64).wrapping_mul(0x100000001b3)) };
+        let mut lens = vec![];
+        let mut digests = vec![];
+        for _ in 0..2 {
+            if let Ok(b) = crate::handles::write_cache(&big) {
+                lens.push(b.len());
+                digests.push(enc::bytes(&fnv(&b).to_be_bytes()));
+            }
+        }
+        let hs: Vec<_> = (0..2)
+            .map(|_| {
+                let s2 = big.clone();
+                std::thread::spawn(move || crate::handles::write_cache(&s2).map(|b| (b.len(), b.iter().fold(0xcbf29ce484222325u64, |h, x| (h ^ *x as u64).wrapping_mul(0x100000001b3)))))
+            })
+            .collect();
+        for h in hs {
+            if let Ok(Ok((l, d))) = h.join() {
+                lens.push(l);
+                digests.push(enc::bytes(&d.to_be_bytes()));
+            }
+        }
+        sink.emit(json!({"t": "samebig", "method_lines": per, "mapping_len": big.len(), "lens": lens, "digests": digests}));
     }
     for (k, src) in srcs.iter().enumerate() {
         match focus.as_str() {
@@ -1057,6 +1097,18 @@ fn corrupt(sink: &mut Sink, o: &Opts) {
                 }
             }
         }
+        // torn buffers: every prefix of small files (parse must return; whatever it accepts must answer)
+        if good.len() <= 500 && k % 2 == 0 {
+            for cut in 0..good.len() {
+                let b = &good[..cut];
+                let buf = crate::handles::Aligned::new(b);
+                let parse = parse_outcome(b);
+                let calls = probe_cache(buf.bytes(), &queries[..queries.len().min(3)]);
+                let failing: Vec<Value> = calls.iter().filter(|c| c["status"] != "ok" || c["provenance_ok"] != true).cloned().collect();
+                let shown = if failing.is_empty() { calls.into_iter().take(1).collect() } else { failing };
+                sink.emit(json!({"t": "corrupt", "what": format!("prefix{cut}"), "parse": parse, "calls": shown, "len": b.len()}));
+            }
+        }
         let versions = 12;
         for v in 0..versions {
             let mut b = good.clone();
@@ -1139,6 +1191,7 @@ fn xver(sink: &mut Sink, o: &Opts) {
     for f in &o.files {
         srcs.push(std::fs::read(f).expect("corpus file"));
     }
+    srcs.extend(gen::crafted());
     for k in 0..o.n {
         let cfg = gen::MapCfg { max_classes: 1 + k % 6, max_members: 1 + k % 7, wild: false, noise: true };
         srcs.push(if k % 9 == 8 { gen::mapping_long_strings(&mut rng) } else if k % 9 == 7 { gen::mapping_many_classes(&mut rng, 30) } else if k % 9 == 6 { gen::mapping_big_class(&mut rng) } else { gen::mapping(&mut rng, &cfg) });
